@@ -513,6 +513,7 @@ color_stmt = (
     (color_kw.suppress() + expr + comma + expr + comma - expr) |
     (color_kw.suppress() + expr + comma + comma - expr) |
     (color_kw.suppress() + expr + comma + expr) |
+    (color_kw.suppress() + comma + expr + comma - expr) |
     (color_kw.suppress() + comma + comma - expr) |
     (color_kw.suppress() + comma + expr) |
     (color_kw.suppress() - expr)
